@@ -303,9 +303,12 @@ impl Buffer {
 
         let layer = &mut self.layers[layer];
         for i in start_line..=end_line {
-            let line = &mut layer.lines[i as usize];
+            let Some(line) = layer.lines.get_mut(i as usize) else {
+                continue;
+            };
             if line.chars.len() > start_column {
-                line.chars.insert(end_column as usize, AttributedChar::default());
+                let insert_at = (end_column.max(0) as usize).min(line.chars.len());
+                line.chars.insert(insert_at, AttributedChar::default());
                 line.chars.remove(start_column);
             }
         }
@@ -320,10 +323,14 @@ impl Buffer {
 
         let layer = &mut self.layers[layer];
         for i in start_line..=end_line {
-            let line = &mut layer.lines[i as usize];
+            let Some(line) = layer.lines.get_mut(i as usize) else {
+                continue;
+            };
             if line.chars.len() > start_column {
                 line.chars.insert(start_column, AttributedChar::default());
-                line.chars.remove(end_column + 1);
+                if end_column + 1 < line.chars.len() {
+                    line.chars.remove(end_column + 1);
+                }
             }
         }
     }
